@@ -815,6 +815,29 @@ pub fn c13(thorough: bool, rng: &mut Rng, out: &mut Out) {
     let (nw, steps) = if thorough { (30_000, 150) } else { (600, 60) };
     run_walks("C13", rng, out, nw, steps, 1);
     known_header_variants("C13", out);
+    overlong_runs(out);
+}
+
+/// Runs of chunks that never start a new page (no offset 0) and pile up far more than a page — past 64 KiB of
+/// pending data — before the count arrives: the whole run is one over-long page and is discarded, however its tail
+/// happens to measure.
+fn overlong_runs(out: &mut Out) {
+    let (w, h) = (90u32, 7u32);
+    let page_chunks = 6usize;
+    for (chunk_len, nchunks) in [(16usize, 4111 + page_chunks), (16, 4112), (16, 4200), (255, 258 + 1), (255, 300)] {
+        let mut line = format!("vbus M,0005 RO,0005,0 SD,0000,{} CS,0001 RO,0005,1", to_hex(&tiny_cfg(w, h, false)));
+        for k in 0..nchunks {
+            let d: Vec<u8> = vec![(k % 251) as u8; chunk_len];
+            line.push_str(&format!(" SD,{:04X},{}", 16 + (k % 4000) * 16, to_hex(&d)));
+        }
+        line.push_str(&format!(" CS,{:04X} QS,0005", nchunks));
+        let i = out.case(line, true);
+        out.stat("vsign.overlong-run-of-chunks");
+        let last = out.impls[i].rsplit(' ').next().unwrap_or("").to_string();
+        if last.contains("/1/") || out.impls[i].contains("PANIC") {
+            out.fail(i, format!("C13 a run of {} chunks of {} bytes without a page start left the sign with a page (or panicking): {}", nchunks, chunk_len, last));
+        }
+    }
 }
 
 /// Complete, legal sessions on signs of extreme configured geometry (far wider or taller than any catalogued
@@ -981,6 +1004,24 @@ pub fn c14(thorough: bool, rng: &mut Rng, out: &mut Out) {
         let t = toks[toks.len() - 2];
         if !t.contains("|12/2/0/") {
             out.fail(i, format!("C14 unaddressed DataChunksSent changed a sign that is not receiving (ReadyToReset after an abandoned transfer): {}", t));
+        }
+    }
+    // two signs receiving at once, both with unknown type codes (or the same known code) and different geometries whose
+    // pages happen to need the same number of bytes: each assembles the broadcast bytes into a page of ITS OWN size
+    for (g1, g2, horizon) in [((30u32, 7u32), (30u32, 8u32), false), ((30, 8), (30, 7), false), ((12, 8), (12, 1), true), ((40, 12), (40, 16), false)] {
+        let (c1, c2) = (tiny_cfg(g1.0, g1.1, horizon), tiny_cfg(g2.0, g2.1, horizon));
+        let page = Page::new(PageId(2), g1.0, g1.1);
+        let mut l = format!("vbus M,0003;M,0004 RO,0003,0 SD,0000,{} CS,0001 RO,0004,0 SD,0000,{} CS,0001 RO,0003,1 RO,0004,1", to_hex(&c1), to_hex(&c2));
+        let mut n = 0;
+        for (ci, c) in page.as_bytes().chunks(16).enumerate() {
+            l.push_str(&format!(" SD,{:04X},{}", ci * 16, to_hex(c)));
+            n += 1;
+        }
+        l.push_str(&format!(" CS,{:04X} QS,0003 QS,0004", n));
+        let i = out.case(l, true);
+        out.stat("bus.two-receivers-same-code-other-geometry");
+        if out.impls[i].contains("PANIC") {
+            out.fail(i, "C14 two signs receiving the same broadcast page panicked".into());
         }
     }
     let (nw, steps) = if thorough { (60_000, 150) } else { (1_500, 80) };
